@@ -13,6 +13,7 @@ pub struct GenFile {
     pub ast: File,
     pub printed: Printed,
     pub r: Rendered,
+    pub always_paren: bool,
 }
 
 pub struct GenProject {
@@ -138,14 +139,15 @@ pub fn gen_project(t: &mut Tape, o: ProjOpts) -> GenProject {
     }
     let mut files = Vec::new();
     for (rel, ast) in asts {
-        let printed = print_file(&ast, t.chance(30));
+        let always_paren = t.chance(30);
+        let printed = print_file(&ast, always_paren);
         let trivia = if o.comments && t.chance(128) {
             random_trivia(&printed, t, LayoutOpts { comment_chance: 25, crlf: true }).0
         } else {
             super::print::plain_trivia(&printed)
         };
         let r = render(&printed, &trivia);
-        files.push(GenFile { rel, ast, printed, r });
+        files.push(GenFile { rel, ast, printed, r, always_paren });
     }
     // named files: the last one and possibly others
     let mut named = vec![nfiles - 1];
